@@ -623,7 +623,7 @@ class FieldValueComponentUrl(FieldValueComponentKeyValueBase):
     def _value_validate(self, _, value):
         self.value = convert_url()(value)
 
-        if isinstance(self.value, urllib3.util.Url) and self.value.url:
+        if isinstance(self.value, urllib3.util.Url) and self.value.url and convert_url()(self.value.url) == self.value:
             return
 
         raise InvalidValue(value, type(self), 'value')
